@@ -9,7 +9,8 @@ from ..common.core import Sub, Violation, lib_call
 from ..common.env import import_library
 
 ID = "C04"
-RULE = ("case = (dissimilarity spec, list of unit pairs). 'pairs': every class incl. combined with components built with the same or a different "
+RULE = ("'sequence': 2-3 dissimilarity objects (combined with default or supplied components, different delta_empty) are built one after the other and "
+        "each is then checked, in both orders. Otherwise: case = (dissimilarity spec, list of unit pairs). 'pairs': every class incl. combined with components built with the same or a different "
         "delta_empty, alpha/beta in {0, .5, .75, 1, 2, 3}, labels in generated (unsorted) order; unit pairs on the float32-exact grid and with arbitrary "
         "floats (|t| <= 1000, duration >= 0.05, docs-like values), identical / nested / disjoint / touching. 'bigcats': 1..300 categories generated from a "
         "seed, category ranks concentrated around 126-129 and 254-257. Oracle: compiled form (observed through a 2-annotator unitary alignment's disorder, "
@@ -90,16 +91,33 @@ def _expand(spec):
 
 
 def check(case):
+    if "sequence" in case:
+        # several dissimilarity objects built one after the other, then each one is checked (again): constructing a
+        # later object must not disturb an earlier one (shared / cached components)
+        specs = [_expand(sp) for sp in case["sequence"]]
+        objs = [oracle.build_dissim(sp, cache=False) for sp in specs]
+        info = None
+        order = list(range(len(specs))) + list(range(len(specs)))[::-1]
+        for i in order:
+            r = evaluate(dict(case, dissim=case["sequence"][i]), objs[i], label="sequence:")
+            info = r if info is None else {"nontrivial": info["nontrivial"] or r["nontrivial"], "classes": sorted(set(info["classes"]) | set(r["classes"]))}
+        info["classes"].append(f"sequence-of-{len(specs)}")
+        return info
+    spec = _expand(case["dissim"])
+    d = oracle.build_dissim(spec, cache=False)
+    return evaluate(case, d)
+
+
+def evaluate(case, d, label=""):
     pa = import_library()
     from pyannote.core import Segment
     spec = _expand(case["dissim"])
-    d = oracle.build_dissim(spec, cache=False)
     ref = oracle.ref_d(spec)
     cats = gen.spec_categories(spec)
     cats_sorted = sorted(cats) if cats is not None else None
     delta = float(spec["delta"])
     if not oracle.close(float(d.delta_empty), delta, rel=1e-6):
-        raise Violation("delta-empty-attribute", f"{float(d.delta_empty)} vs {delta}")
+        raise Violation(label + "delta-empty-attribute", f"{float(d.delta_empty)} vs {delta}")
     nontrivial = False
     classes = [f"kind={spec['kind']}"]
     if cats is not None:
@@ -139,34 +157,34 @@ def check(case):
         cvu = float(lib_call("compiled(v,u)", pa.UnitaryAlignment([("a", V), ("b", U)]).compute_disorder, d))
         what = f"u={u} v={v} spec={_short(spec)}"
         if not oracle.close(duv, r64, rel=1e-5):
-            raise Violation("unit-form-vs-formula", f"d(u,v)={duv} formula={r64} {what}")
+            raise Violation(label + "unit-form-vs-formula", f"d(u,v)={duv} formula={r64} {what}")
         if not oracle.close(dvu, duv, rel=1e-6):
-            raise Violation("unit-form-asymmetric", f"{duv} vs {dvu} {what}")
+            raise Violation(label + "unit-form-asymmetric", f"{duv} vs {dvu} {what}")
         if not oracle.close(cuv, r32):
-            raise Violation("compiled-form-vs-formula", f"compiled={cuv} formula(float32 inputs)={r32} {what}")
+            raise Violation(label + "compiled-form-vs-formula", f"compiled={cuv} formula(float32 inputs)={r32} {what}")
         if not oracle.close(cvu, cuv, rel=1e-6):
-            raise Violation("compiled-form-asymmetric", f"{cuv} vs {cvu} {what}")
+            raise Violation(label + "compiled-form-asymmetric", f"{cuv} vs {cvu} {what}")
         band = oracle.REL_TOL
         if not exact:
             amp = 16 * EPS32 * max(abs(u[0]), abs(u[1]), abs(v[0]), abs(v[1]), 1.0) / min(u[1] - u[0], v[1] - v[0])
             band = oracle.REL_TOL + amp * 4 * max(1.0, math.sqrt(max(r64, 0.0) / max(delta, 1e-9)))
         if not oracle.close(cuv, duv, rel=band, scale=max(1.0, abs(duv)) * max(1.0, float(spec.get("alpha", 1.0)))):
-            raise Violation("compiled-vs-unit-form", f"compiled={cuv} d()={duv} {what}")
+            raise Violation(label + "compiled-vs-unit-form", f"compiled={cuv} d()={duv} {what}")
         if duv < 0 or cuv < 0:
-            raise Violation("negative-value", f"{duv} {cuv} {what}")
+            raise Violation(label + "negative-value", f"{duv} {cuv} {what}")
         # zero on identical units
         for W, w in ((U, u), (V, v)):
             z1 = float(d.d(W, W))
             z2 = float(pa.UnitaryAlignment([("a", W), ("b", W)]).compute_disorder(d))
             if z1 != 0 or z2 != 0:
-                raise Violation("nonzero-on-identical", f"d={z1} compiled={z2} unit={w} spec={_short(spec)}")
+                raise Violation(label + "nonzero-on-identical", f"d={z1} compiled={z2} unit={w} spec={_short(spec)}")
         # d_mat on the documented array encoding (start, end, duration, alphabetical category rank)
         if cats_sorted is not None:
             au = np.array([u[0], u[1], u[1] - u[0], cats_sorted.index(u[2])], dtype=np.float32)
             av = np.array([v[0], v[1], v[1] - v[0], cats_sorted.index(v[2])], dtype=np.float32)
             m = float(d.d_mat(au, av))
             if not oracle.close(m, r32):
-                raise Violation("d_mat-vs-formula", f"d_mat={m} formula={r32} {what}")
+                raise Violation(label + "d_mat-vs-formula", f"d_mat={m} formula={r32} {what}")
         if u[2] != v[2] or (u[0], u[1]) != (v[0], v[1]):
             nontrivial = True
         values.append((u, v, duv))
@@ -179,7 +197,7 @@ def check(case):
                 lhs = d1 * abs(pos[u2[2]] - pos[v2[2]])
                 rhs = d2 * abs(pos[u1[2]] - pos[v1[2]])
                 if not oracle.close(lhs, rhs, rel=1e-4, scale=max(1.0, abs(lhs), abs(rhs))):
-                    raise Violation("ordinal-not-proportional", f"{u1[2]},{v1[2]} -> {d1}; {u2[2]},{v2[2]} -> {d2}; positions {pos}")
+                    raise Violation(label + "ordinal-not-proportional", f"{u1[2]},{v1[2]} -> {d1}; {u2[2]},{v2[2]} -> {d2}; positions {pos}")
     if hi_rank:
         classes.append("rank>=128")
     if any(not p.get("exact", True) for p in case["pairs"]):
@@ -265,10 +283,31 @@ def big_cases(draw):
     return {"dissim": spec, "pairs": pairs}
 
 
+@st.composite
+def sequence_cases(draw):
+    k = draw(st.integers(2, 3))
+    specs = []
+    for _ in range(k):
+        sp = draw(gen.dissim_specs(kinds=("combined", "combined", "pos", "abs"), max_cats=4))
+        if sp["kind"] == "combined" and draw(st.booleans()):
+            sp["pos"], sp["cat"] = None, None          # default components
+        specs.append(sp)
+    # labels must be valid for every spec: restrict to specs without a category table, or share one table
+    tables = [gen.spec_categories(sp) for sp in specs]
+    if any(t is not None for t in tables):
+        for sp in specs:
+            if sp["kind"] == "combined":
+                sp["cat"] = None
+    pairs = draw(st.lists(unit_pairs(st.integers(0, 3)), min_size=4, max_size=8))
+    return {"sequence": specs, "pairs": pairs}
+
+
 def subchecks(tier):
     return [
         Sub(name="pairs", check=check, strategy=pair_cases(),
             examples={"quick": 100, "thorough": 800}, shards={"quick": 8, "thorough": 16}),
+        Sub(name="sequence", check=check, strategy=sequence_cases(),
+            examples={"quick": 40, "thorough": 500}, shards={"quick": 8, "thorough": 16}),
         Sub(name="bigcats", check=check, strategy=big_cases(),
             examples={"quick": 50, "thorough": 400}, shards={"quick": 8, "thorough": 16}),
     ]
